@@ -69,13 +69,21 @@ mod contracts {
         }
     }
 
-    /// stands for a claim-topics-and-issuers registry: this issuer may emit every topic but 7
+    /// stands for a claim-topics-and-issuers registry: this issuer may emit every topic but 7 - unless the
+    /// registry has been told to deny everything (`set_deny`): the harness does that on registry 2 around every
+    /// `remove_key` (and undoes it before every `allow_key`), so that the answer at the only place the code may
+    /// consult the registry (allow_key) is always `topic != 7`, while a remove_key that consulted it would see
+    /// "not authorized any more" (seed C20-r11-2)
     #[contract]
     pub struct MockReg;
     #[contractimpl]
     impl MockReg {
-        pub fn has_claim_topic(_e: &Env, _issuer: Address, topic: u32) -> bool {
-            topic != 7
+        pub fn has_claim_topic(e: &Env, _issuer: Address, topic: u32) -> bool {
+            let deny: bool = e.storage().instance().get(&soroban_sdk::symbol_short!("deny")).unwrap_or(false);
+            !deny && topic != 7
+        }
+        pub fn set_deny(e: &Env, deny: bool) {
+            e.storage().instance().set(&soroban_sdk::symbol_short!("deny"), &deny);
         }
     }
 
@@ -545,6 +553,10 @@ impl Reg for KeysSim {
             "remove" => "remove_key",
             _ => unreachable!(),
         };
+        if r == 2 {
+            // registry 2 has dropped every topic whenever a key is removed, and lists them again whenever one is allowed
+            run(e, &self.regs[2], "set_deny", args(e, [v(e, ws[1] == "remove")]));
+        }
         (run(e, &self.c, f, a).is_some(), String::new())
     }
     fn state(&self, _ws: &[&str]) -> String {
